@@ -1,0 +1,15 @@
+//go:build verif
+
+package components
+
+import "github.com/scipipe/scipipe"
+
+// VerifCombineParams exposes ParamCombinator.combine, for the verification harness only.
+func VerifCombineParams(inParams map[string][]string, keys []string) map[string][]string {
+	return combine(inParams, keys)
+}
+
+// VerifCombineFiles exposes FileCombinator.combine, for the verification harness only.
+func VerifCombineFiles(inIPs map[string][]*scipipe.FileIP, keys []string) map[string][]*scipipe.FileIP {
+	return (&FileCombinator{}).combine(inIPs, keys)
+}
